@@ -2,7 +2,7 @@
    compute exactly what the hand model C02/Model.v computes, on every placement. *)
 From Coq Require Import ZArith Znumtheory List Bool Lia ZifyBool String.
 From Cffi Require Import C03.CExpr C03.CExprFacts C03.Mem C03.MemProofs C03.Store C03.StoreProofs.
-From Cffi Require Import C02.Spec C02.Model C02.Proofs C02.Gen C02.Interp.
+From Cffi Require Import C02.Spec C02.Model C02.Proofs C02.IR C02.Gen C02.Interp.
 Import ListNotations.
 Open Scope string_scope.
 Open Scope Z_scope.
@@ -284,6 +284,7 @@ Section Refine.
     pose proof (pow2_le (8 * Z.of_nat (isize T)) 64 ltac:(lia)) as PB.
     unfold gen_write. rewrite guard_eval by (auto; lia).
     unfold bf_write. destruct (Z.leb_spec 64 w) as [W|W]; [reflexivity|]. cbn [b2z Z.eqb negb].
+    unfold write_value_conv. cbn [conv_value].
     unfold as_longlong. destruct ((- 2 ^ 63 <=? v) && (v <? 2 ^ 63)) eqn:LL; [|reflexivity].
     assert (- 2 ^ 63 <= v < 2 ^ 63) as Hv by lia.
     assert (count_ok w = true) as Cw by (unfold count_ok; lia).
